@@ -7,6 +7,7 @@ import (
 	"strconv"
 	"strings"
 	"time"
+	"verif/internal/yrun"
 
 	"github.com/traefik/yaegi/interp"
 	"github.com/traefik/yaegi/stdlib"
@@ -118,7 +119,7 @@ func guarded(i *interp.Interpreter, f func() *failure) *failure {
 		}()
 		r = f()
 	}()
-	last, at := i.VerifOps(), time.Now()
+	last, clock := i.VerifOps(), yrun.NewStallClock()
 	t := time.NewTicker(100 * time.Millisecond)
 	defer t.Stop()
 	for {
@@ -127,8 +128,9 @@ func guarded(i *interp.Interpreter, f func() *failure) *failure {
 			return r
 		case <-t.C:
 			if n := i.VerifOps(); n != last {
-				last, at = n, time.Now()
-			} else if time.Since(at) > 20*time.Second {
+				last = n
+				clock.Reset()
+			} else if clock.Idle() > 20*time.Second {
 				return failf("stuck", nil, "no interpreted operation and no return for 20s")
 			}
 		}
